@@ -314,6 +314,12 @@ def hand_corpus():
     S("HDelimNoTrailThenMore", chunked(array("names", "string", delimited=True, trailing=False), array("more", "char", optional=True), field("z", "char", optional=True)), rt=False)
     S("HOnlyOptLen", field("s", "string", length=3, optional=True), array("xs", "char", length=2, optional=True), rt=False)      # every guard of the class is a length check
     S("HOptStrBreakReq", chunked(field("a", "char"), brk(), field("note", "string", optional=True), brk(), field("z", "char")), rt=False)
+    # round 6: two chunked sections in one object (also: a case with its own section after the parent's has closed);
+    # an unnamed constant inside the element type of a length-less array (the element size decides the count)
+    S("HTwoChunks", chunked(field("a", "string"), brk(), field("b", "string")), field("mid", "char"), chunked(field("c", "string"), brk(), field("d", "string")))
+    S("HChunkThenCaseChunk", chunked(field("kind", "char"), brk(), field("a", "string")), switch("kind", "char", case(1, chunked(field("q", "string"), brk(), field("r", "string")))))
+    S("HHardElem", field("", "char", hard=7), field("x", "char"))
+    S("HArrHardElem", field("n", "char"), array("es", "HHardElem"))
     # round 6: objects without instructions (the generated serialize() had an empty try block: fix f2d221e)
     S("HEmpty")
     S("HHoldsEmpty", field("a", "char"), field("e", "HEmpty"), field("z", "char"))
